@@ -288,6 +288,11 @@ func (fa facts) apply(info *types.Info, e Event) bool {
 			if len(e.Rhs) == len(e.Lhs) && (e.Tok == token.ASSIGN || e.Tok == token.DEFINE) {
 				if v := absValue(info, e.Rhs[i]); v != "" && !isVolatile(k) {
 					fa[k] = v
+				} else if rk := chainKey(e.Rhs[i]); rk != "" && rk != k && !isVolatile(k) && !isVolatile(rk) {
+					// a copy carries what is known about the source
+					if cur, ok := fa[rk]; ok && (cur == "nil" || cur == "nonnil" || strings.HasPrefix(cur, "const:") || strings.HasPrefix(cur, "int:")) {
+						fa[k] = cur
+					}
 				}
 				// x = x[:0]  ⇒  len(x) == 0
 				if se, ok := ast.Unparen(e.Rhs[i]).(*ast.SliceExpr); ok && se.Low == nil && se.High != nil && !isVolatile(k) {
